@@ -91,4 +91,15 @@ TEXTS = {
   "note": "Not decided: the algebraic laws over all configurations (union of single-rule results, monotonicity of suppression) — they quantify over run-time annotation sets.",
   "technique": "SSA data-dependence slices + CFG reachability + table obligations",
  },
+ "C20": {
+  "text": "Decides structural conditions tying printing, exit status and formats together: every use of bufctl.ErrFileAnnotation in the buf tree is preceded on every CFG path by a print "
+          "of the annotation set (reviewed exception: format --exit-code's guarded defer) and, in the buf commands and the controller, every exit after a successful print yields the "
+          "sentinel; ExitCodeFileAnnotation is referenced only by the sentinel and wrapError's import-not-exist case; every exported error-returning *controller method defers "
+          "handleFileAnnotationSetRetError(&named result) (one reasoned exception); GetExitCode returns 0 only under err == nil and newAppError replaces a 0 code; Format constants, "
+          "both name tables, AllFormatStrings and the printer switch are mutually total, each arm passing fileAnnotationSet.FileAnnotations() to its own printer, the shared loop "
+          "rendering every element; fileAnnotationSet is built only by newFileAnnotationSet through dedup+sort, whose comparator reads every printed field and whose identity key "
+          "delimits its variable-length components; free text reaches JSON via json.Marshal, JUnit via xml.Encoder and the github-actions command only through escaping helpers.",
+  "note": "Not decided: the actual process exit status and bytes, and agreement of field values across formats for concrete annotations.",
+  "technique": "CFG must-pass-through pairing + who-may-reference + table totality + SSA data-dependence on encoders",
+ },
 }
